@@ -72,8 +72,10 @@ static size_t g_hnd;
 #define ELMN(h) ((h) ? ELM(h) : NULL)
 static int cmp_plainheap;       /* the huge-heap batch: handles are the structures themselves */
 
+static int pl_calls;     /* bumped by the comparison function; read by a small setjmp-free function right after a library call */
 static int cmp_prio(const void *a, const void *b, void *p)
 {
+    pl_calls++;
     const struct helem *x = cmp_plainheap ? a : ELM(a), *y = cmp_plainheap ? b : ELM(b); const struct hord *o = p;
     int d = o ? o->dir : 1;
     return sim_cmp(d * ((x->prio > y->prio) - (x->prio < y->prio)));
@@ -233,6 +235,8 @@ static void huge_heap(uint64_t nsel, uint64_t seed)
     if (n > maxreach) maxreach = (unsigned)n;
 }
 
+static int push_plain(struct cstl_heap *hp_, void *e) { pl_calls = 0; g_inlib = 1; cstl_heap_push(hp_, e); g_inlib = 0; return pl_calls; }
+
 static void h_exec(const plan_t *p)
 {
     struct simheap_cfg hc = { RP_MOVE, 0, (unsigned char)p->cfg[CF_JUNK] };
@@ -309,6 +313,11 @@ static void h_exec(const plan_t *p)
             e = simheap_alloc(sizeof *e, TAG_ELEM);
             e->magic = MAGIC; e->tail = ~MAGIC; e->id = next_id++; e->heap = h; e->mark = 0;
             e->prio = (int)(o->a[1] % (uint64_t)prios);
+            if (k % 4 == 1) {
+                int seen = push_plain(&hp[h], HND(e));
+                if (m->n >= 1 && seen < 1) VIOL(h, "callback_effects_invisible", "push onto %d elements: the caller's own counter, written by the comparison function and read right after the call in an optimised function, says %d", m->n, seen);
+                PROBE("callback_counted_in_plain_function");
+            } else
             TRY(cstl_heap_push(&hp[h], HND(e)));
             if (g_aborted) VIOL(h, g_aborted == 2 ? "assert" : "abort", "push aborted");
             m->e[m->n++] = e;
